@@ -1,6 +1,8 @@
 package types
 
 import (
+	"math"
+
 	errorsmod "cosmossdk.io/errors"
 	sdk "github.com/cosmos/cosmos-sdk/types"
 	paramtypes "github.com/cosmos/cosmos-sdk/x/params/types"
@@ -18,6 +20,10 @@ var (
 )
 
 var _ paramtypes.ParamSet = (*Params)(nil)
+
+// MaxVotePeriod keeps 2*votePeriod inside int64: the round arithmetic computes it in int64 and
+// uint64 and would otherwise wrap around or divide by zero
+const MaxVotePeriod = uint64(math.MaxInt64 / 2)
 
 // ParamKeyTable the param key table for launch module
 func ParamKeyTable() paramtypes.KeyTable {
@@ -64,6 +70,10 @@ func (p Params) String() string {
 func (p Params) Validate() error {
 	if p.VotePeriod == 0 {
 		return ErrVotePeriodIsZero
+	}
+
+	if p.VotePeriod > MaxVotePeriod {
+		return errorsmod.Wrapf(ErrInvalidParams, "vote period %d is greater than %d", p.VotePeriod, MaxVotePeriod)
 	}
 
 	if p.VoteThreshold.LT(sdk.NewDecWithPrec(50, 2)) {
@@ -117,6 +127,10 @@ func validateVotePeriod(i interface{}) error {
 
 	if v == 0 {
 		return errorsmod.Wrapf(ErrInvalidParams, "vote period must be positive: %d", v)
+	}
+
+	if v > MaxVotePeriod {
+		return errorsmod.Wrapf(ErrInvalidParams, "vote period %d is greater than %d", v, MaxVotePeriod)
 	}
 
 	return nil
